@@ -15,6 +15,16 @@ CHECKS = {
         note='Trusts vf/ref/script.py (validated by vf.setup on the real-chain pairs and by bulk agreement), OpenSSL hashes, and that TAPSCRIPT sessions '
              'carry the execdata configure_tx_txin always sets. The known finding C01-opsuccess is excluded from the BIP342 layer only.',
         design='5/C01'),
+    'C02': dict(
+        technique='differential property-based testing (Hypothesis) with an independent signer/verifier: reference-signed cases, single-field corruptions, per-step trace and error identity comparison',
+        text='Cases = transaction (1-4 in/outs) x input index x amount x {BASE, WITNESS_V0, TAPROOT key path, TAPSCRIPT} x template (CHECKSIG, CHECKSIGVERIFY, P2PKH, k-of-n CHECKMULTISIG(VERIFY) '
+             'up to n=20, CHECKSIGADD chains, mixtures, FindAndDelete) x OP_CODESEPARATOR placements incl. unexecuted branches x all 256 ECDSA hash types / defined and undefined Schnorr hash types x '
+             'annex x key forms x flag subsets. Signatures come from a signing pass of the reference interpreter over its own legacy/BIP143/BIP341-342 digests and own secp256k1; 21 kinds of '
+             'corruption (signature bit, key bit, every signed field, high-S, DER re-encodings, hash-type byte, budget) follow. The debugger interpreter must produce the same per-step states, '
+             'the same error identity and the same remaining validation weight; digests are also compared directly.',
+        note='Invalid => rejected is established over generated corruptions, not over all signatures. The interpreter is driven with a checker that knows all spent outputs (harness `direct`); the Instance '
+             'path is sampled for BASE/WITNESS_V0. Three genuine defects were repaired by fix: commits.',
+        design='5/C02'),
     'C04': dict(
         technique='model-based stateful property testing (Hypothesis histories + complete history trees) with the tree as its own reference: live session vs fresh session advanced by the net step count',
         text='For generated sessions (IF nesting, alt stack, OP_CODESEPARATOR before mocked signature checks, ~201 counted ops, scriptSig->scriptPubKey->P2SH phases, real reference-signed '
